@@ -230,4 +230,32 @@ theorem nonNullMaxs_eq {α} : ∀ pages : List (Option (α × α)), nonNullMaxs 
     simp only [nonNullMaxs, pairsOf] at this
     simpa [nonNullMaxs, pairsOf] using this
 
+/-- the entries a reader sees for a BYTE_ARRAY member: the exact page bounds truncated to the size limit -/
+def recordedBytes (lim : Nat) (pages : List (Option (List Nat × List Nat))) : List (Option (List Nat × List Nat)) :=
+  pages.map (fun p => p.map (fun ab => (truncMinLim ab.1 lim, truncMaxLim ab.2 lim)))
+
+theorem nonNullOf_bytesIndexMins (lim : Nat) : ∀ pages : List (Option (List Nat × List Nat)),
+    nonNullOf pages (bytesIndexMins lim pages) = nonNullMins (recordedBytes lim pages)
+  | [] => rfl
+  | none :: rest => by
+    have := nonNullOf_bytesIndexMins lim rest
+    simp only [nonNullOf, bytesIndexMins, storedMins, nonNullMins, recordedBytes] at this
+    simpa [nonNullOf, bytesIndexMins, storedMins, nonNullMins, recordedBytes] using this
+  | some q :: rest => by
+    have := nonNullOf_bytesIndexMins lim rest
+    simp only [nonNullOf, bytesIndexMins, storedMins, nonNullMins, recordedBytes] at this
+    simpa [nonNullOf, bytesIndexMins, storedMins, nonNullMins, recordedBytes] using this
+
+theorem nonNullOf_bytesIndexMaxs (lim : Nat) : ∀ pages : List (Option (List Nat × List Nat)),
+    nonNullOf pages (bytesIndexMaxs lim pages) = nonNullMaxs (recordedBytes lim pages)
+  | [] => rfl
+  | none :: rest => by
+    have := nonNullOf_bytesIndexMaxs lim rest
+    simp only [nonNullOf, bytesIndexMaxs, storedMaxs, nonNullMaxs, recordedBytes] at this
+    simpa [nonNullOf, bytesIndexMaxs, storedMaxs, nonNullMaxs, recordedBytes] using this
+  | some q :: rest => by
+    have := nonNullOf_bytesIndexMaxs lim rest
+    simp only [nonNullOf, bytesIndexMaxs, storedMaxs, nonNullMaxs, recordedBytes] at this
+    simpa [nonNullOf, bytesIndexMaxs, storedMaxs, nonNullMaxs, recordedBytes] using this
+
 end PqModel.Stats
